@@ -1055,6 +1055,28 @@ fn scripts_using_abvm() -> HashSet<UnicodeShortName> {
         .collect()
 }
 
+/// Verification hook (add-only): runs the private mark lookup builder
+/// (`MarkLookupBuilder::new` + `build`) on caller-supplied inputs for /verif's harness.
+#[cfg(fontc_verif)]
+pub fn verif_build_marks(
+    anchors: Vec<&GlyphAnchors>,
+    glyph_order: &GlyphOrder,
+    gdef_categories: &GdefCategories,
+    static_metadata: &StaticMetadata,
+    fea_first_pass: &FeaFirstPassOutput,
+    char_map: HashMap<u32, GlyphId16>,
+) -> Result<FeaRsMarks, Error> {
+    MarkLookupBuilder::new(
+        anchors,
+        glyph_order,
+        gdef_categories,
+        static_metadata,
+        fea_first_pass,
+        char_map,
+    )?
+    .build()
+}
+
 #[cfg(test)]
 mod tests {
     use fea_rs::compile::Compilation;
